@@ -36,6 +36,11 @@ Theorem c07_taken_on_ledger : forall s m typ pr price offer fee now s',
 Proof. exact place_takes. Qed.
 Print Assumptions c07_taken_on_ledger.
 
+(* the reserve is the floor of offer * rate (rate scaled by 10^18), for every non-negative offer and rate *)
+Theorem c07_fee_floor : forall rate x, 0 <= rate -> 0 <= x -> fee_amt rate x = (x * rate) / P18.
+Proof. exact fee_amt_floor. Qed.
+Print Assumptions c07_fee_floor.
+
 (* every stored order, in every reachable state, for every fill pattern: received = sum of its fills,
    offer - remaining = sum paid by its fills; while it is live nothing has been returned; once it is
    terminated (completed, cancelled, cancel-all, expired, too small, market-making replace) the unspent
@@ -84,6 +89,22 @@ Theorem c07_settled_on_ledger : forall s e st s',
                              - at_ (Escrow (o_app o) (o_pair o)) (o_odenom o) c d (refund + fee).
 Proof. exact finish_pays. Qed.
 Print Assumptions c07_settled_on_ledger.
+
+(* each fill: ApplyMatchResult books (matched, paid, received) on the record and its ghost, completes the
+   order through FinishOrder when nothing is left open, and pays the received demand coin from the pair
+   escrow to the orderer - nothing else moves *)
+Theorem c07_fill_on_ledger : forall s app pair id matched paid recv s',
+  apply_fill s app pair (id, matched, paid, recv) = Ok s' ->
+  exists o g s3, find_order (app, pair, id) (orders s) = Some (o, g) /\ 0 <= paid <= o_rem o /\ 0 <= recv /\
+    (if o_open o - matched =? 0
+     then finish_entry (fill_book s (app, pair, id) o g matched paid recv)
+                       (set_fill o matched paid recv (o_status o), fill_ghost g matched paid recv) 4 = Ok s3
+     else s3 = mark_status (fill_book s (app, pair, id) o g matched paid recv) (app, pair, id)
+                           (set_fill o matched paid recv (o_status o)) (fill_ghost g matched paid recv) 3) /\
+    g_recv (fill_ghost g matched paid recv) = g_recv g + recv /\
+    forall c d, led s' c d = led s3 c d + at_ (User (o_owner o)) (o_ddenom o) c d recv - at_ (Escrow app pair) (o_ddenom o) c d recv.
+Proof. exact fill_pays. Qed.
+Print Assumptions c07_fill_on_ledger.
 
 (* nothing of a terminated order remains in escrow: in every reachable state the balance of every pair
    escrow in every denom is exactly the sum of the shares of the pair's stored orders offering that denom
